@@ -159,6 +159,11 @@ def run(rep, tier):
     r5(prog, rep)
     r6(prog, rep)
     r7(prog, rep)
+    # the two ends of a contour are handled by duplicated blocks: each sided name from its own side
+    from .. import sides
+    rep.rule("R8", "lower/upper (start/end) side agreement in the contour and spacing code")
+    n = sides.check(prog, rep, "R8", lambda f: f.module.rel == "hypnotoad/core/equilibrium.py", "contour and spacing code (core/equilibrium.py)")
+    rep.floor("R8.sided-sites", n, 80)
     rep.undecided("interior monotonicity for all parameter values (run-time _checkMonotonic)")
     return __doc__
 
